@@ -5,7 +5,8 @@
 
   The decoder accepts every argument width.  Outside the value model and reported as
   `unsupported`: tags (major 6), indefinite-length items (info 31), map keys that are not text
-  strings, negative integers below -2^63 (not representable in Go's int64).  `undefined` (f7)
+  strings, maps with a repeated key, lengths ≥ 2^63, negative integers below -2^63 (not
+  representable in Go's int64).  `undefined` (f7)
   decodes to null, as the codec does.  Reserved info values 28..30, unassigned/1-byte simple
   values and a stray break are `malformed`.
 -/
@@ -45,8 +46,12 @@ mutual
     | (k, v) :: r => (encHead 3 k.length ++ k) ++ (enc v ++ encDict r)
 end
 
-/-- Lengths are at most 64 bits wide. -/
-def maxLen : Nat := 18446744073709551616
+/-- Arguments are at most 64 bits wide. -/
+def argMax : Nat := 18446744073709551616
+
+/-- Lengths the codec handles as such: a length of 2^63 or more turns negative in Go's `int`
+    and the codec then treats the item as indefinite-length. -/
+def maxLen : Nat := 9223372036854775808
 
 /-- The argument following an initial byte with additional information `info`. -/
 def readArg (info : Nat) (rest : Bytes) : DRes (Nat × Bytes) :=
@@ -68,7 +73,7 @@ def decKey : Bytes → DRes (Bytes × Bytes)
   | b :: rest =>
     if b.toNat / 32 = 3 then
       match readArg (b.toNat % 32) rest with
-      | .ok (n, r) => takeN n r
+      | .ok (n, r) => if maxLen ≤ n then .error .unsupported else takeN n r
       | .error e => .error e
     else .error .unsupported
 
@@ -88,11 +93,12 @@ def decBody (f : Bytes → DRes (CVal × Bytes)) (major n : Nat) (r : Bytes) : D
   if major = 0 then .ok (.int n, r)
   else if major = 1 then
     (if n < 9223372036854775808 then .ok (.int (-1 - (n : Int)), r) else .error .unsupported)
+  else if major = 6 then .error .unsupported                 -- tags
+  else if maxLen ≤ n then .error .unsupported                -- see `maxLen`
   else if major = 2 then mapV .bin (takeN n r)
   else if major = 3 then mapV .str (takeN n r)
   else if major = 4 then mapV .list (decItems f n r)
-  else if major = 5 then mapV .dict (decPairs decKey f n r)
-  else .error .unsupported
+  else mapV .dict (decPairs decKey f n [] r)
 
 def decF : Nat → Bytes → DRes (CVal × Bytes)
   | 0, _ => .error .malformed
@@ -121,6 +127,7 @@ def decTop (bs : Bytes) : DRes (List CVal) :=
       match readArg info rest with
       | .error e => .error e
       | .ok (n, r) =>
+        if maxLen ≤ (if major = 4 then n else 2 * n) then .error .unsupported else
         match decItems (decF bs.length) (if major = 4 then n else 2 * n) r with
         | .ok (l, _) => .ok l
         | .error e => .error e
